@@ -217,6 +217,41 @@ def gen_prog(rnd):
     return decls, actor
 
 
+def gen_order_prog(rnd):
+    """definitions whose ORDER must not matter: a function, aliases of it (chains), services whose methods are given by
+    those names, functions that take / return the services -- written in a random order, with or without a main service;
+    with some probability one alias leads to a non-function instead (then the program is ill formed)"""
+    defs = [("f", gen_func(rnd, [], 0))]
+    chain = ["f"]
+    for nm in rnd.sample(["g", "h", "k"], rnd.randrange(1, 4)):
+        defs.append((nm, ("var", rnd.choice(chain))))
+        chain.append(nm)
+    if rnd.random() < 0.25:
+        defs.append(("n", ("prim", "nat")))
+        chain.append("n")                                            # a name that does NOT denote a function
+        if rnd.random() < 0.5:
+            defs.append(("nn", ("var", "n")))
+            chain.append("nn")
+    svcs = []
+    for nm in rnd.sample(["s", "t"], rnd.randrange(1, 3)):
+        ms = [(m, ("var", rnd.choice(chain))) for m in rnd.sample(["get", "set", "f"], rnd.randrange(1, 3))]
+        body = ("service", ms)
+        c = rnd.random()
+        if c < 0.5:
+            defs.append((nm, body))
+        elif c < 0.75:
+            defs.append((nm, ("opt", body)))                         # the service sits inside another type
+        else:
+            defs.append((nm, ("func", [(None, body)], [], [])))
+        svcs.append(nm)
+    rnd.shuffle(defs)
+    actor = None
+    if rnd.random() < 0.5:
+        ms = [(m, ("var", rnd.choice(chain))) for m in rnd.sample(["a", "b"], rnd.randrange(1, 3))]
+        actor = ("service", [], ("service", ms))
+    return defs, actor
+
+
 def show_prog(decls, actor):
     out = [f"type {n} = {show(t)};" for n, t in decls]
     if actor:
@@ -238,7 +273,7 @@ def run(pid, build_replay):
     rnd = random.Random(9000 + int(os.environ.get("VERIF_SEED", "0") or 0))
     cases = []
     for _ in range(3000 * (10 if scale > 1 else 1)):
-        decls, actor = gen_prog(rnd)
+        decls, actor = gen_order_prog(rnd) if rnd.random() < 0.15 else gen_prog(rnd)
         text = show_prog(decls, actor)
         cases.append((f"tc {text.encode().hex() or '20'}", text, wf_prog(decls, actor)))
     p = subprocess.run([exe], input="\n".join(c[0] for c in cases) + "\n", capture_output=True, text=True, timeout=1800)
@@ -265,7 +300,7 @@ def run(pid, build_replay):
             "bounded_standins": [{"functions": ["candid_parser: grammar actions (label / method uniqueness), typing.rs check_prog as a whole -- the completeness "
                                                 "direction (well formed => accepted) that U11 does not state"],
                                   "bound": f"{len(cases)} seeded programs of 0..5 definitions (aliases, records / variants with named, numbered and positional fields, "
-                                           f"functions with 0..2 annotations, services, unbound and doubly defined names, vacuous alias cycles) with or without a main "
+                                           f"functions with 0..2 annotations, services, unbound and doubly defined names, vacuous alias cycles; about one in seven is a set of functions, alias chains to them and services naming them, written in a random order) with or without a main "
                                            f"service / service constructor; {nwf} of them well formed",
                                   "vectors": len(cases), "disagreements": len(failures), "labelled": "bounded, NOT proved",
                                   "wall_s": round(time.time() - t0, 1)}]}
